@@ -59,24 +59,6 @@ impl<'a> LinuxSllHeaderSlice<'a> {
         })
     }
 
-    /// Converts the given slice into a SLL header slice WITHOUT any checks to
-    /// ensure that the data present is an sll header or that the slice length
-    /// is matching the header length.
-    ///
-    /// If you are not sure what this means, use [`LinuxSllHeaderSlice::from_slice`]
-    /// instead.
-    ///
-    /// # Safety
-    ///
-    /// The caller must ensured that the given slice has the length of
-    /// [`LinuxSllHeader::LEN`] and the fields are valid
-    #[inline]
-    #[cfg(feature = "std")]
-    pub(crate) unsafe fn from_slice_unchecked(slice: &[u8]) -> LinuxSllHeaderSlice<'_> {
-        debug_assert!(slice.len() == LinuxSllHeader::LEN);
-        LinuxSllHeaderSlice { slice }
-    }
-
     /// Returns the slice containing the SLL header
     #[inline]
     pub fn slice(&self) -> &'a [u8] {
